@@ -18,7 +18,8 @@
                             for exactly its protocol.
    T6 ResolvesWithOutcome   every open_stream resolves (exactly once, being a future) with the outcome of ITS attempt: the
                             negotiated stream, UnsupportedProtocol(p) when the remote refused p, Io when the dial, the
-                            connection or the negotiation failed.  It never waits for ever once the environment (dials,
+                            connection or the negotiation failed ("dial errors are propagated": Io(NotConnected) for everything
+                            that waited for the failed dial).  It never waits for ever once the environment (dials,
                             negotiations) has answered everything it was asked.
    (XStreamIn.tla models T1..T3, this module T4..T6.)
 
